@@ -3,7 +3,7 @@ import ast
 import re
 
 from ..index import AnalysisError, norm, walk_no_nested
-from ..astutil import dotted
+from ..astutil import dotted, const_value
 from .. import dtable
 from .. import cfg as cfgmod
 
@@ -23,9 +23,39 @@ EXPLANATION = (
     " Added after seed round 7: M9 facts fixed by propagated evidence keep the remaining fields of their atom node (the group) and get weight 1.0 / 0.0 by truth value."
     " Added after seed round 8: M9/M10 evidence-fixed facts reach the sampler as (identifier, value) + the rest of their atom node, and a disjunction head that is ruled out lowers the remaining mass of its group by its own probability."
     " Added after seed round 9: M11 add_evidence_atom hands the fields after the probability (group, *args) to add_atom unchanged."
+    " Added after seed round 11: M12 sample_value returns the factor 1.0 for fixed(V) and 0.0 for a drawn value."
 )
 TECHNIQUE = "static analysis: path-wise decision-table extraction (draw/accounting pairing)"
 LEVEL_TEXT = EXPLANATION
+
+
+def rule_m12(repo, col):
+    """SampledFormula.sample_value returns (value, probability of the choice): a `fixed(V)` annotation is no choice at all (factor 1.0); a draw from a continuous distribution
+    contributes the density factor 0.0 the sampler has always reported"""
+    f = repo.func(MOD, "SampledFormula.sample_value")
+    mod = f.module
+    t = f.params[1]
+    n = 0
+    for p_ in dtable.extract(f.node, opaque_loops=True):
+        if p_.end != "return":
+            continue
+        cd = dict((s_.replace('"', "'"), t_) for s_, t_, _ in p_.conds)
+        fixed = cd.get("%s.functor == 'fixed'" % t)
+        if fixed is None:
+            raise AnalysisError("sample_value: a returning path does not test %s.functor == 'fixed'" % t)
+        e = ast.parse(p_.value, mode="eval").body if p_.value else None
+        if not (isinstance(e, ast.Tuple) and len(e.elts) == 2):
+            raise AnalysisError("sample_value: returned value is not a pair: %s" % (p_.value or "")[:60])
+        okc, v = const_value(e.elts[1])
+        if not okc:
+            raise AnalysisError("sample_value: probability factor not constant: %s" % norm(e.elts[1]))
+        want = 1.0 if fixed else 0.0
+        n += 1
+        col.decide("M12", mod, f.node, float(v) == want, "sample_value: %s -> factor %s" % ("fixed(V)" if fixed else "a drawn value", want),
+                   "sample_value returns the factor %s for %s: the probability printed for a sample is the product of these factors - a deterministic fixed(V) annotation must contribute 1.0 "
+                   "(the sample is otherwise printed with `%% Probability: 0`)" % (v, "fixed(V)" if fixed else "a value drawn from a distribution"),
+                   construct="sample_value: factor of %s" % ("fixed(V)" if fixed else "a drawn value"), function="SampledFormula.sample_value")
+    col.floor("M12.paths", n, 2)
 
 
 def run(repo, col):
@@ -336,3 +366,5 @@ def run(repo, col):
                    "verify_evidence gives an undrawn disjunction atom the weight %s when its group is closed and %s when it is open: a head whose sibling was chosen is false (0.0), a head of a "
                    "group not yet decided may still become true (1.0)" % (sorted(set(sum((_w(q) for q in closed), []))), sorted(set(sum((_w(q) for q in opened), [])))),
                    construct="verify_evidence: weight of undrawn disjunction atoms", function="verify_evidence")
+    col.rule("M12", "sample_value: a fixed value contributes the factor 1.0")
+    rule_m12(repo, col)
